@@ -7,6 +7,7 @@ from .. import reprcorpus, runner
 def generate(tier, rng):
     c = Corpus()
     k = 0
+    nu = 0
     gens = ['', 'ty', 'lt', 'where', 'const', 'lt_ty']
     for repr_ in reprcorpus.REPRS:
         for n in ((1, 4) if tier == 'quick' else (1, 2, 4, 7)):
@@ -15,7 +16,9 @@ def generate(tier, rng):
                 for unit_only in (True, False):
                     if not unit_only and repr_ is None and lname != 'implicit':
                         continue
-                    gen = gens[k % len(gens)] if not unit_only else ''
+                    gen = gens[nu % len(gens)] if not unit_only else ''
+                    if not unit_only:
+                        nu += 1
                     if gen in ('lt', 'const', 'lt_ty'):
                         pass
                     e = reprcorpus.make_enum('c09_%d' % k, 'EnC09x%d' % k, n, repr_, lname, lay, 'none', unit_only,
